@@ -36,6 +36,11 @@ import (
 // Not asserted: a rename whose two names are covered by rights of different kinds (metric bit for one,
 // prefix for the other: the code wants the same kind for both, the statement says "rights on both");
 // a raw kind replaced by another raw kind (raw-ness unchanged).
+// Degenerate bits (empty, ":" or blank name after the dot) are generated too. The reference stays literal:
+// a namespace bit for namespace v covers exactly the names that start with v+":" -- for an empty v that
+// is no legal metric name, so an empty namespace bit grants nothing; a metric bit with an empty or blank
+// name equals no legal name. An EMPTY PREFIX bit is literally a prefix of every name: decisions that
+// hinge on such a bit alone are generated but not asserted.
 // Tokens that must not authenticate (expired, signed by an unconfigured key) must yield an error.
 
 type c30Grant struct {
@@ -44,17 +49,17 @@ type c30Grant struct {
 }
 
 type c30Metric struct {
-	Name       string   `json:"name"`
-	Weight     float64  `json:"weight"`
-	PreKeyFrom uint32   `json:"pre_key_from"`
-	PreKeyOnly bool     `json:"pre_key_only"`
-	Skips      [3]bool  `json:"skips"`
-	Strategy   string   `json:"strategy"`
-	ShardNum   uint32   `json:"shard_num"`
+	Name       string    `json:"name"`
+	Weight     float64   `json:"weight"`
+	PreKeyFrom uint32    `json:"pre_key_from"`
+	PreKeyOnly bool      `json:"pre_key_only"`
+	Skips      [3]bool   `json:"skips"`
+	Strategy   string    `json:"strategy"`
+	ShardNum   uint32    `json:"shard_num"`
 	Fixed      [3]uint32 `json:"fixed"`
-	Raw        []string `json:"raw"` // raw kind per tag
-	Descr      string   `json:"descr"`
-	Resolution int      `json:"resolution"`
+	Raw        []string  `json:"raw"` // raw kind per tag
+	Descr      string    `json:"descr"`
+	Resolution int       `json:"resolution"`
 }
 
 type c30Pol struct {
@@ -65,7 +70,7 @@ type c30Pol struct {
 	Protected []string   `json:"protected"`
 	Old       c30Metric  `json:"old"`
 	New       c30Metric  `json:"new"`
-	Create    bool       `json:"create"` // handler calls CanEditMetric(true, m, m) on create
+	Create    bool       `json:"create"`    // handler calls CanEditMetric(true, m, m) on create
 	BadToken  int        `json:"bad_token"` // 0 valid, 1 expired, 2 signed by a key that is not configured
 }
 
@@ -86,14 +91,14 @@ func c30Remote(name string) bool { // the four remote-config metrics named by th
 }
 
 type c30Ref struct {
-	admin                    bool
-	viewDef, editDef         bool
-	viewMetric, editMetric   map[string]bool
-	viewPrefix, editPrefix   []string
-	protected                []string
+	admin                  bool
+	viewDef, editDef       bool
+	viewMetric, editMetric map[string]bool
+	viewPrefix, editPrefix []string
+	protected              []string
 }
 
-func c30MakeRef(c c30Pol) c30Ref {
+func c30MakeRef(c c30Pol, withEmptyPrefix bool) c30Ref {
 	r := c30Ref{viewMetric: map[string]bool{}, editMetric: map[string]bool{}, protected: c.Protected}
 	for _, g := range c.Grants {
 		switch g.Kind {
@@ -108,9 +113,13 @@ func c30MakeRef(c c30Pol) c30Ref {
 		case "edit_metric":
 			r.editMetric[g.Val] = true
 		case "view_prefix":
-			r.viewPrefix = append(r.viewPrefix, g.Val)
+			if g.Val != "" || withEmptyPrefix {
+				r.viewPrefix = append(r.viewPrefix, g.Val)
+			}
 		case "edit_prefix":
-			r.editPrefix = append(r.editPrefix, g.Val)
+			if g.Val != "" || withEmptyPrefix {
+				r.editPrefix = append(r.editPrefix, g.Val)
+			}
 		case "view_namespace":
 			r.viewPrefix = append(r.viewPrefix, g.Val+":")
 		case "edit_namespace":
@@ -262,12 +271,28 @@ func c30PolProp(t vpT, c c30Pol) (classes []string) {
 	if err != nil {
 		t.Fatalf("valid token rejected: %v", err)
 	}
-	ref := c30MakeRef(c)
+	ref := c30MakeRef(c, false)
+	refE := c30MakeRef(c, true) // the reading in which an empty prefix bit covers every name
 	cls := map[string]bool{}
+	for _, g := range c.Grants {
+		switch {
+		case g.Kind == "admin" || g.Kind == "developer" || g.Kind == "view_default" || g.Kind == "edit_default":
+		case g.Val == "" && (g.Kind == "view_namespace" || g.Kind == "edit_namespace"):
+			cls["degenerate-empty-namespace-bit"] = true
+		case g.Val == "":
+			cls["degenerate-empty-bit"] = true
+		case strings.TrimSpace(strings.Trim(g.Val, ":")) == "":
+			cls["degenerate-separator-or-blank-bit"] = true
+		}
+	}
 	// view: every name of the universe
 	if !ref.admin {
 		for _, name := range c30Names {
 			got, want := ai.CanViewMetricName(name), ref.canView(name)
+			if want != refE.canView(name) {
+				cls["unasserted-empty-prefix-bit"] = true
+				continue
+			}
 			if got != want {
 				t.Fatalf("non-admin view %q: got %v, want %v\ngrants %+v decoys %q protected %q", name, got, want, c.Grants, c.Decoys, c.Protected)
 			}
@@ -302,6 +327,8 @@ func c30PolProp(t vpT, c c30Pol) (classes []string) {
 		names := ref.editNames(o.Name, n.Name)
 		forb, what := c30Forbidden(o, n)
 		switch {
+		case names != refE.editNames(o.Name, n.Name):
+			cls["unasserted-empty-prefix-bit"] = true
 		case names == 0:
 			if got {
 				t.Fatalf("non-admin edit %q -> %q allowed without edit rights on both names\ngrants %+v decoys %q protected %q", o.Name, n.Name, c.Grants, c.Decoys, c.Protected)
@@ -399,7 +426,17 @@ func c30GenPol() *rapid.Generator[c30Pol] {
 			default:
 				g.Kind = "admin"
 			}
+			if g.Val != "" && rapid.IntRange(0, 5).Draw(t, "degenerate") == 0 { // degenerate name after the dot
+				if g.Kind == "view_namespace" || g.Kind == "edit_namespace" {
+					g.Val = rapid.SampledFrom([]string{"", "", "", ":", " ", "@", "ns:"}).Draw(t, "degns")
+				} else {
+					g.Val = rapid.SampledFrom([]string{"", "", ":", " ", "  "}).Draw(t, "degval")
+				}
+			}
 			c.Grants = append(c.Grants, g)
+		}
+		if rapid.IntRange(0, 7).Draw(t, "emptyns") == 0 { // the bit "<app>:view_namespace." / "<app>:edit_namespace."
+			c.Grants = append(c.Grants, c30Grant{Kind: rapid.SampledFrom([]string{"edit_namespace", "view_namespace"}).Draw(t, "emptynskind")})
 		}
 		// most cases: make sure the edit is covered by rights of one kind, so that the attribute rules decide
 		switch rapid.IntRange(0, 5).Draw(t, "cover") {
